@@ -75,12 +75,31 @@ def build_harness():
     return HARNESS
 
 
-def spec_hash(extra=""):
+def module_closure(module, seen=None):
+    """the module and every local module it EXTENDS / INSTANCEs (transitively)"""
+    seen = seen if seen is not None else set()
+    if module in seen:
+        return seen
+    path = os.path.join(SPEC, module + ".tla")
+    if not os.path.exists(path):
+        return seen
+    seen.add(module)
+    text = open(path).read()
+    names = set()
+    for m in re.finditer(r"EXTENDS\s+([^\n]+)", text):
+        names.update(x.strip() for x in m.group(1).split(","))
+    for m in re.finditer(r"INSTANCE\s+(\w+)", text):
+        names.add(m.group(1))
+    for n in names:
+        module_closure(n, seen)
+    return seen
+
+
+def spec_hash(module, extra=""):
     h = hashlib.sha256()
-    for f in sorted(os.listdir(SPEC)):
-        if f.endswith(".tla"):
-            h.update(f.encode())
-            h.update(open(os.path.join(SPEC, f), "rb").read())
+    for f in sorted(module_closure(module)):
+        h.update(f.encode())
+        h.update(open(os.path.join(SPEC, f + ".tla"), "rb").read())
     h.update(extra.encode())
     return h.hexdigest()[:20]
 
@@ -151,7 +170,7 @@ def model_check(run, module, cfg_text, must_hold=True, workers=None, timeout=900
 
 def emit_ts(run, module, cfg_text, workers=4, timeout=1800):
     """Emit the transition system of a bounded instance (cached: it does not depend on /repo)."""
-    key = spec_hash(module + cfg_text)
+    key = spec_hash(module, cfg_text)
     path = os.path.join(CACHE, f"ts-{key}.out")
     if os.path.exists(path) and os.path.getsize(path) > 0 and "Model checking completed" in tail(path, 4000):
         return path, True
@@ -345,6 +364,23 @@ def script_run(run, vec_paths, n, cap, stride=1, offset=0, timeout=3000):
     p = sh(cmd, timeout=timeout, check=False)
     if p.returncode != 0:
         raise ToolError("harness scriptvec failed: " + p.stdout[-3000:])
+    j = json.load(open(out))
+    j["witness_file"] = wit
+    return j
+
+
+def truncate_run(run, ts_path, tokens, n, cap, max_images, extra_calls=None, timeout=3000):
+    out = run.fresh("trunc", ".json")
+    wit = run.fresh("twit", ".ndjson")
+    cmd = [HARNESS, "truncate", "--ts", ts_path, "--tokens", json.dumps(tokens), "--n", str(n), "--cap", str(cap), "--scratch", run.dir,
+           "--witness-out", wit, "--out", out, "--max-images", str(max_images)]
+    if extra_calls:
+        ep = run.fresh("extra", ".json")
+        json.dump(extra_calls, open(ep, "w"))
+        cmd += ["--extra", ep]
+    p = sh(cmd, timeout=timeout, check=False)
+    if p.returncode != 0:
+        raise ToolError("harness truncate failed: " + p.stdout[-3000:])
     j = json.load(open(out))
     j["witness_file"] = wit
     return j
